@@ -207,18 +207,19 @@ def _c10() -> SimEngine:
 
 
 def _c11() -> SimEngine:
-    prof = profile(max_pools=3, sizes=[1, 2, 3, None, None], ops={"spawn": 10, "flush": 2, "cancel": 1.5, "cancel_group": 1, "gate": 7, "stop": 0.5})
+    prof = profile(max_pools=3, sizes=[1, 2, 3, None, None], ops={"spawn": 10, "flush": 2, "cancel": 1.5, "cancel_group": 1, "gate": 7, "stop": 0.5,
+                                                                  "new_pool": 1.2, "close": 1.0})
     return SimEngine(
         "C11",
         "1..3 pools of either class (named and unnamed) in one loop, interleaved spawners, endings, flushes, cancellations. Non-trivial: "
         ">= 2 pools created tasks and a flush returned. Distinct = program hash.",
         [("default", prof, 1.0)],
         lambda case, l: "ids:pool-with-tasks-0" in l and "ids:pool-with-tasks-1" in l and "flush:returned" in l,
-        n_quick=4000, n_thorough=200000, floors={"ids:pool-with-tasks-1": 0.3})
+        n_quick=4000, n_thorough=200000, floors={"ids:pool-with-tasks-1": 0.3, "new-pool-after-a-close": 0.05})
 
 
 def _c13() -> SimEngine:
-    prof = profile(p_cb=0.8, p_cb_async=0.7, p_cb_wait=0.6, sizes=[1, 2, 3, None], p_worker_raise=0.1,
+    prof = profile(p_cb=0.8, p_cb_async=0.7, p_cb_wait=0.6, sizes=[1, 2, 3, None], p_worker_raise=0.25,
                    ops={"flush": 6, "cancel": 4, "cancel_group": 1, "spawn": 8, "gate": 7, "tick": 7, "stop": 1})
 
     def sw(tier: str):
